@@ -641,10 +641,6 @@ func (bc *Blockchain) CheckReorgs(txn adb.Txn, stats *Stats) (bool, error) {
 			}
 			Log.Debugf("reorg step 1: scanning altchain block %d %x", commonBlock.Height, commonBlockHash)
 
-			if commonBlock.Height == 0 {
-				return errors.New("could not find common block")
-			}
-
 			topohash, err := bc.GetTopo(txn, commonBlock.Height)
 			// a block doesn't exist in mainchain at this height, just print the error and go on
 			if err != nil {
@@ -654,6 +650,11 @@ func (bc *Blockchain) CheckReorgs(txn adb.Txn, stats *Stats) (bool, error) {
 			if topohash == commonBlockHash {
 				Log.Debugf("stopping just before block common: %x", commonBlockHash)
 				break
+			}
+
+			// the genesis block is on every chain: reaching it without a match means the index is broken
+			if commonBlock.Height == 0 {
+				return errors.New("could not find common block")
 			}
 
 			hashes = append(hashes, hashInfo{
